@@ -72,6 +72,10 @@ class Worker:
         try:
             self.errf.seek(0)
             data = self.errf.read()
+            # a sanitizer report starts with its most useful part: keep the head of the report rather than its tail
+            i = max(data.find(b"ERROR: AddressSanitizer"), data.find(b"ERROR: ThreadSanitizer"))
+            if i >= 0 and len(data) - i > n:
+                return (data[max(0, i - 300):i + 2 * n] + b"\n[...]\n" + data[-1500:]).decode("latin-1")
             return data[-n:].decode("latin-1")
         except Exception:
             return ""
@@ -121,6 +125,13 @@ class Worker:
             self._read_exact(1, deadline)
         except WorkerHang:
             err = self._stderr_tail()
+            if os.environ.get("VERIF_GDB_ON_HANG"):
+                try:
+                    bt = subprocess.run(["gdb", "-p", str(self.proc.pid), "-batch", "-ex", "thread apply all bt 14"], stdout=subprocess.PIPE,
+                                        stderr=subprocess.DEVNULL, text=True, timeout=120).stdout
+                    err = (err or "") + "\n--- gdb ---\n" + bt
+                except Exception as e:
+                    err = (err or "") + "\n(gdb failed: %s)" % e
             self.stop()
             raise WorkerHang(err)
         except (EOFError, BrokenPipeError, ValueError, OSError):
